@@ -2,7 +2,7 @@
 # devmut.sh <seed> <module> <cond> <shard-json> [budget] [P|C]: one shard against a scratch build of /repo HEAD + seeded change
 set -e
 S=$1; shift
-W=/tmp/devbuild/src
+W=/tmp/devbuild/src2
 git -C $W checkout -q --detach $(git -C /repo rev-parse HEAD); git -C $W checkout -q -- .
 git -C $W apply /verif/seeded/$S/patch.diff
 mkdir -p /tmp/devbuild/mt
